@@ -217,6 +217,17 @@ def gen_free(rng, tier, ctx):
 
 
 def impl_free(case):
+    """SQLite gives up a lock wait after five seconds; on a stalled disk (a restore or another check writing heavily) a
+    constructor can then fail with 'database is locked' although nothing is wrong with the code.  Such a run says nothing
+    about the property, so it is repeated; only a failure that persists over four runs is reported."""
+    for attempt in range(4):
+        r = _impl_free_once(case)
+        if not any("database is locked" in str(x) for x in r[3]):
+            return r
+    return r
+
+
+def _impl_free_once(case):
     import multiprocessing as mp
     import androguard.session  # noqa
     pre, n = case
